@@ -1963,6 +1963,26 @@ foamToSExpr(Foam foam)
 
 #define croak(sx, msg)	comsgFatal(abNewNothing(sxiPos(sx)), msg)
 
+/*
+ * The value of an integer read from FOAM text.  Integers beyond the
+ * immediate range of BInt are allocated; take their bits.
+ */
+local AInt
+foamSxToAInt(SExpr sxi)
+{
+	BInt	b = sxi->sxInteger.val;
+	ULong	n = 0;
+	int	i;
+
+	if (bintIsSmall(b)) return bintSmall(b);
+
+	for (i = bitsizeof(AInt) - 1; i >= 0; i--) {
+		n <<= 1;
+		if (bintBit(b, i)) n |= 1;
+	}
+	return bintIsNeg(b) ? -(AInt) n : (AInt) n;
+}
+
 Foam
 foamFrSExpr(SExpr sx)
 {
@@ -2008,7 +2028,7 @@ foamFrSExpr(SExpr sx)
 		case 'w':
 		case 'i':
 			if (!sxiIntegerP(sxi)) croak(sxi, ALDOR_F_LoadNotInteger);
-			foamArgv(foam)[si].data = sxiToInteger(sxi);
+			foamArgv(foam)[si].data = foamSxToAInt(sxi);
 			break;
 		case 't':
 		case 'o':
